@@ -10,11 +10,11 @@ let pc_name = function
   | DLen -> "DLen" | DNext -> "DNext" | DDead -> "DDead" | ALoad -> "ALoad" | ACas -> "ACas" | Done -> "Done"
 
 let fail_name = function
-  | FTooLong -> "FTooLong" | FTries -> "FTries" | FLimitWithin -> "FLimitWithin" | FTrunc -> "FTrunc"
+  | FEmpty -> "FEmpty" | FTooLong -> "FTooLong" | FTries -> "FTries" | FLimitWithin -> "FLimitWithin" | FTrunc -> "FTrunc"
   | FExtend -> "FExtend" | FWrite -> "FWrite" | FBeyond -> "FBeyond" | FCycle -> "FCycle" | FRange -> "FRange"
 
 (* the implementation's error classes *)
-let fail_class = function FTooLong -> "toolong" | FRange -> "model-range" | _ -> "corrupt"
+let fail_class = function FEmpty -> "empty" | FTooLong -> "toolong" | FRange -> "model-range" | _ -> "corrupt"
 
 let show_ent (e : ent) =
   let (off, (nm, (v, nx))) = e in
@@ -203,6 +203,7 @@ let handle kind c =
             if not ok then prop1 "cell-wrong" (Printf.sprintf "thread %d: newCounter(n%d) returned %s which is not the linked record of that name" tid (int_of_n nm) r)
           end else if dmg then ()
           else if r = "err-toolong" && N.ltb c_maxNameLen (nlen nm) then ()
+          else if r = "err-empty" && nlen nm = N0 then ()
           else if not ikilled then begin
             if final_empty then
               prop1 "empty-name" (Printf.sprintf "thread %d: newCounter(n%d) failed (%s) in a file that holds a record with an empty name" tid (int_of_n nm) r)
